@@ -1075,6 +1075,11 @@ func (t *tScreen) draw() {
 	for y := 0; y < t.h; y++ {
 		for x := 0; x < t.w; x++ {
 			width := t.drawCell(x, y)
+			if width < 1 {
+				// no cell there (the buffer is emptied while
+				// suspended): still move on to the next column
+				width = 1
+			}
 			if width > 1 {
 				if x+1 < t.w {
 					// this is necessary so that if we ever
